@@ -203,11 +203,25 @@ impl Monitor for C10 {
         "C10"
     }
     fn plan(&self, cfg: &Cfg) -> u64 {
-        (8 * ns(cfg).len()) as u64 * cfg.tier.pick(10, 60)
+        (8 * ns(cfg).len()) as u64 * cfg.tier.pick(10, 60) + 8 * 12 * 2
     }
     fn trial(&self, cfg: &Cfg, idx: u64, out: &mut TrialOut) {
         let nl = ns(cfg);
         let mut rng = Rng::for_trial(cfg.seed, "C10", idx);
+        let main = (8 * nl.len()) as u64 * cfg.tier.pick(10, 60);
+        if idx >= main {
+            // constant clause at f64 for every view at every N in 1..12 (twice, two constants): the small
+            // windows are where a buffer shorter than the filter's taps passes the constant level
+            let j = idx - main;
+            let vi = (j % 8) as usize;
+            let n = 1 + ((j / 8) % 12) as usize;
+            let k = kind(vi, n, &mut rng);
+            let c: f64 = if j / 96 == 0 { 2.5 } else { *rng.pick(&[1.0, -2.5, 1000.0, 0.1, 0.375]) };
+            out.key(mix(hash_str(&format!("{:?}const-small", k)), c.to_bits()));
+            out.count("constant_clause_trials_at_every_N_up_to_12", 1);
+            constant::<f64>(k, c, out);
+            return;
+        }
         let vi = (idx % 8) as usize;
         let n = nl[((idx / 8) % nl.len() as u64) as usize];
         let n = super::jitter_n(cfg, n, 1, 64, &mut rng);
@@ -290,7 +304,7 @@ impl Monitor for C10 {
         v
     }
     fn rule(&self) -> String {
-        "trial = (one of the eight linear views with parameter grid; N; streams x, y of two input classes; scalars a, b incl. 0 and negatives; `cancel` variant where a x + b y is exactly 0 on stretches); three instances fed x, y, a x + b y; at every step where they report, view(a x + b y) must equal a view(x) + b view(y): exactly at the exact scalar, within 64 eps x steps x gain x (|a| max|x| + |b| max|y|) at f64. Constant clause: low-pass members return c from the first output, SuperSmoother within 1e-9|c| after the settle length S, high-pass members within 1e-9|c| of 0 after S (S from the reference pole radius). distinct = distinct (view+parameters, scalar, a, b, input hashes)".into()
+        "trial = (one of the eight linear views with parameter grid; N; streams x, y of two input classes; scalars a, b incl. 0 and negatives; `cancel` variant where a x + b y is exactly 0 on stretches); three instances fed x, y, a x + b y; at every step where they report, view(a x + b y) must equal a view(x) + b view(y): exactly at the exact scalar, within 64 eps x steps x gain x (|a| max|x| + |b| max|y|) at f64. Constant clause (random N, and in both tiers every N in 1..12 for every view at f64): low-pass members return c from the first output, SuperSmoother within 1e-9|c| after the settle length S, high-pass members within 1e-9|c| of 0 after S (S from the reference pole radius). distinct = distinct (view+parameters, scalar, a, b, input hashes)".into()
     }
     fn assumptions(&self) -> Vec<String> {
         vec!["second-order filters at the exact scalar are run for 100 steps (rational growth)".into()]
